@@ -375,7 +375,7 @@ fn beh_name(b: &Beh) -> String {
 
 pub fn arb_beh() -> BoxedStrategy<Beh> {
     prop_oneof![
-        5 => (0u8..8, any::<bool>(), any::<bool>(), 0u8..4, 0u8..6).prop_map(|(algs, anon, cookie, realm, nonce)| Beh::Challenge { algs, anon, cookie, realm, nonce }),
+        5 => (0u8..10, any::<bool>(), any::<bool>(), 0u8..4, 0u8..6).prop_map(|(algs, anon, cookie, realm, nonce)| Beh::Challenge { algs, anon, cookie, realm, nonce }),
         3 => (0u8..6, any::<bool>(), prop_oneof![3 => Just(false), 1 => Just(true)]).prop_map(|(nonce, with_integrity, other_algs)| Beh::Stale { nonce, with_integrity, other_algs }),
         8 => Just(Beh::Natural),
         1 => Just(Beh::SuccessUnauth),
